@@ -51,6 +51,7 @@ struct Prog {
   std::vector<int> vsize;     // size in bytes of each virtual register; vreg 0 = pointer argument
   std::vector<Ins> ins;
   int nlabels = 0;
+  bool fp = false;            // the function keeps a frame pointer (stack arguments are then addressed through it)
   int jt_mode = -1; size_t ninit = 0;     // ninit: the first ninit instructions define every register
   std::vector<int> argv;      // 8-byte virtual registers that receive the function arguments 1..k (6th and later on the stack)
 };
@@ -62,8 +63,8 @@ static const int kBufBytes = kOutBase + kOutQwords * 8;
 
 // generator features that are switched off while the corresponding recorded defect of the tree is present (decided by the
 // probes, see tools/checks/c05.py): bit 0 = 32-bit writes to 8-byte virtual registers (zero-extension) and
-// bit 1 = 8/16-bit xor/sub same-register idioms on wider virtual registers, bit 2 = `and r, 0`, bit 3 = calls, bit 4 = 16-byte vector registers, bit 5 = further function arguments (register and stack), bit 6 = annotated jump tables, bit 7 = AVX functions (32-byte vectors, mask registers, re-aligned stack), bit 8 = blocks named by several jump-table entries, bit 9 = AVX-512 functions (64-byte vectors)
-static unsigned g_features = 1023;
+// bit 1 = 8/16-bit xor/sub same-register idioms on wider virtual registers, bit 2 = `and r, 0`, bit 3 = calls, bit 4 = 16-byte vector registers, bit 5 = further function arguments (register and stack), bit 6 = annotated jump tables, bit 7 = AVX functions (32-byte vectors, mask registers, re-aligned stack), bit 8 = blocks named by several jump-table entries, bit 9 = AVX-512 functions (64-byte vectors), bit 10 = calls of a Windows-x64 callee with 16-byte vector arguments (passed by reference)
+static unsigned g_features = 2047;
 static int g_jt_mode = -1;
 
 struct Gen {
@@ -131,7 +132,7 @@ struct Gen {
     Ins i;
     uint32_t pick = r.below((g_features & 8) ? 26 : 24);
     if (fixed_heavy && r.chance(60)) { static const uint32_t fh[10] = {9, 10, 9, 13, 14, 24, 12, 3, 11, 17}; pick = fh[r.below((g_features & 8) ? 10 : 5)]; if (pick == 24 && !(g_features & 8)) pick = 9; }
-    if ((g_features & 16) && !vvals.empty() && r.chance(30)) pick = 100 + r.below(10);
+    if ((g_features & 16) && !vvals.empty() && r.chance(30)) pick = 100 + r.below((g_features & 1024) && (g_features & 8) ? 11 : 10);
     if (!yvals.empty() && r.chance(30)) pick = 200 + r.below(5);
     if (!kvals.empty() && r.chance(12)) pick = 210 + r.below(6);
     switch (pick) {
@@ -184,6 +185,8 @@ struct Gen {
       case 107: { i.k = K_VSHUF; i.d = anyvv(); i.a = anyvv(); i.imm = int64_t(r.below(256)); add(i); break; }
       case 108: { int g = vmin(4); if (g < 0) break; i.k = K_VPINSRW; i.d = anyvv(); i.a = g; i.imm = int64_t(r.below(8)); add(i); break; }
       case 109: { i.k = K_VSHIFTI; i.op = int(r.below(2)); i.d = anyvv(); i.imm = int64_t(r.below(70)); add(i); break; }
+      case 110: { // call of a Windows-x64 callee with two 16-byte vector arguments (passed by reference) and an integer
+        int d = vmin(8), g = vmin(8); if (d < 0 || g < 0) break; i.k = K_CALL; i.d = d; i.nargs = 3; i.xs[0] = anyvv(); i.xs[1] = g; i.xs[2] = anyvv(); add(i); break; }
       case 24: case 25: { // call of a C helper with 2 register arguments or 8 arguments (6 in registers, 2 on the stack)
         int d = vmin(8); if (d < 0 || vmin(8) < 0) break; i.k = K_CALL; i.d = d; i.nargs = r.chance(60) ? 2 : (r.chance(50) ? 8 : 6);     // 6: a callee with the Windows x64 convention
         for (int q = 0; q < i.nargs; q++) i.xs[q] = vmin(8);
@@ -230,7 +233,7 @@ struct Gen {
     if (avx512) nvec += int(r.below(20));
     if (avx) { for (int j = 0; j < nvec; j++) yvals.push_back(newv(avx512 ? 64 : 32)); int nk = int(r.below(10)); for (int j = 0; j < nk; j++) kvals.push_back(newv(-8)); }
     else if (g_features & 16) for (int j = 0; j < nvec; j++) vvals.push_back(newv(16));
-    if ((g_features & 32) && r.chance(50)) { int k = int(r.below(yvals.empty() ? 12 : 6)); /* no stack arguments in frames with a re-aligned stack */ for (int j = 0; j < k; j++) { int v = vmin(8); if (v >= 0 && std::find(p.argv.begin(), p.argv.end(), v) == p.argv.end()) p.argv.push_back(v); } }
+    if ((g_features & 32) && r.chance(50)) { int k = int(r.below(12)); /* also in frames with a re-aligned stack: stack arguments come through the SA register */ p.fp = r.chance(20); for (int j = 0; j < k; j++) { int v = vmin(8); if (v >= 0 && std::find(p.argv.begin(), p.argv.end(), v) == p.argv.end()) p.argv.push_back(v); } }
     // entry: every register is defined on every path
     for (int c : counters) { Ins i; i.k = K_MOVRI; i.d = c; i.w = 8; i.imm = (fixed_heavy ? 2 : 1) + int64_t(r.below(3)); add(i); }
     { Ins i; i.k = K_MOVRI; i.d = idxTmp; i.w = 8; i.imm = 0; add(i); }
@@ -333,6 +336,13 @@ __attribute__((ms_abi)) static uint64_t helper_ms(uint64_t a0, uint64_t a1, uint
   for (int i = 0; i < 6; i++) { g_callLog.push_back(v[i]); h = (h + v[i]) * 0x9E3779B97F4A7C15ull ^ uint64_t(i); }
   return h;
 }
+// Windows x64: 16-byte vector arguments are passed BY REFERENCE (the caller copies them to temporaries and passes pointers)
+#include <emmintrin.h>
+__attribute__((ms_abi)) static uint64_t helper_msv(__m128i a, uint64_t b, __m128i c) {
+  uint64_t v[5]; memcpy(v, &a, 16); v[2] = b; memcpy(v + 3, &c, 16); uint64_t h = 0x3141; g_callLog.push_back(5);
+  for (int i = 0; i < 5; i++) { g_callLog.push_back(v[i]); h = (h ^ v[i]) * 0x9E3779B97F4A7C15ull + uint64_t(i); }
+  return h;
+}
 static uint64_t helper8(uint64_t a0, uint64_t a1, uint64_t a2, uint64_t a3, uint64_t a4, uint64_t a5, uint64_t a6, uint64_t a7) {
   uint64_t v[8] = {a0, a1, a2, a3, a4, a5, a6, a7}; uint64_t h = 0x1234567; g_callLog.push_back(8);
   for (int i = 0; i < 8; i++) { g_callLog.push_back(v[i]); h = (h ^ v[i]) * 0x100000001B3ull + uint64_t(i); }
@@ -433,7 +443,8 @@ struct Interp {
         case K_VPINSRW: { uint16_t h[8]; memcpy(h, &X[size_t(i.d)], 16); h[i.imm & 7] = uint16_t(rd(i.a, 4)); memcpy(&X[size_t(i.d)], h, 16); break; }
         case K_VSHIFTI: { V128& x = X[size_t(i.d)]; if (i.op == 0) { uint32_t l[4]; memcpy(l, &x, 16); for (int q = 0; q < 4; q++) l[q] = i.imm > 31 ? 0 : l[q] << i.imm; memcpy(&x, l, 16); }
           else { x.q[0] = i.imm > 63 ? 0 : x.q[0] >> i.imm; x.q[1] = i.imm > 63 ? 0 : x.q[1] >> i.imm; } break; }
-        case K_CALL: { uint64_t v[8]; for (int q = 0; q < i.nargs; q++) v[q] = rd(i.xs[q], 8);
+        case K_CALL: { if (i.nargs == 3) { __m128i a, c; memcpy(&a, &X[size_t(i.xs[0])], 16); memcpy(&c, &X[size_t(i.xs[2])], 16); wr(i.d, 8, helper_msv(a, rd(i.xs[1], 8), c)); break; }
+          uint64_t v[8]; for (int q = 0; q < i.nargs; q++) v[q] = rd(i.xs[q], 8);
           wr(i.d, 8, i.nargs == 2 ? helper(v[0], v[1]) : i.nargs == 6 ? helper_ms(v[0], v[1], v[2], v[3], v[4], v[5]) : helper8(v[0], v[1], v[2], v[3], v[4], v[5], v[6], v[7])); break; }
         case K_RET: return rd(i.a, 8);
       }
@@ -460,7 +471,7 @@ struct Emitted { FuncNode* func = nullptr; std::vector<x86::Gp> regs; std::vecto
 
 static Emitted emit_prog(x86::Compiler& cc, const Prog& p) {
   Emitted e;
-  { FuncSignature sig(CallConvId::kCDecl); sig.set_ret_t<uint64_t>(); sig.add_arg_t<uint64_t*>(); for (size_t q = 0; q < p.argv.size(); q++) sig.add_arg_t<uint64_t>(); e.func = cc.add_func(sig); }
+  { FuncSignature sig(CallConvId::kCDecl); sig.set_ret_t<uint64_t>(); sig.add_arg_t<uint64_t*>(); for (size_t q = 0; q < p.argv.size(); q++) sig.add_arg_t<uint64_t>(); e.func = cc.add_func(sig); if (p.fp && e.func) e.func->frame().set_preserved_fp(); }
   for (size_t v = 0; v < p.vsize.size(); v++) {
     int s = p.vsize[v];
     e.kregs.push_back(s == -8 ? cc.new_kq() : x86::KReg());
@@ -531,6 +542,9 @@ static Emitted emit_prog(x86::Compiler& cc, const Prog& p) {
       case K_VPINSRW: E(cc.emit(x86::Inst::kIdPinsrw, X(i.d), R(i.a, 4), Imm(i.imm))); break;
       case K_VSHIFTI: E(cc.emit(i.op == 0 ? x86::Inst::kIdPslld : x86::Inst::kIdPsrlq, X(i.d), Imm(i.imm))); break;
       case K_CALL: { InvokeNode* inv = nullptr;
+        if (i.nargs == 3) { FuncSignature sig(CallConvId::kX64Windows); sig.set_ret_t<uint64_t>(); sig.add_arg(TypeId::kInt32x4); sig.add_arg_t<uint64_t>(); sig.add_arg(TypeId::kInt32x4);
+          E(cc.invoke(Out<InvokeNode*>(inv), Imm(uint64_t(uintptr_t(&helper_msv))), sig));
+          if (inv) { inv->set_arg(0, X(i.xs[0])); inv->set_arg(1, R(i.xs[1], 8)); inv->set_arg(2, X(i.xs[2])); inv->set_ret(0, R(i.d, 8)); } break; }
         if (i.nargs == 6) { FuncSignature sig(CallConvId::kX64Windows); sig.set_ret_t<uint64_t>(); for (int q = 0; q < 6; q++) sig.add_arg_t<uint64_t>();
           E(cc.invoke(Out<InvokeNode*>(inv), Imm(uint64_t(uintptr_t(&helper_ms))), sig)); }
         else if (i.nargs == 2) E(cc.invoke(Out<InvokeNode*>(inv), Imm(uint64_t(uintptr_t(&helper))), FuncSignature::build<uint64_t, uint64_t, uint64_t>()));
@@ -547,6 +561,7 @@ static Emitted emit_prog(x86::Compiler& cc, const Prog& p) {
 
 // ------------------------------------------------------------------------------------------------ RaIR dump
 static const uint32_t kFlagBase = 1000000;     // pseudo virtual registers for the status flags (one per CpuRWFlags bit)
+static const uint32_t kPtrV = 3000000;         // pseudo virtual registers: address of the temporary of a by-reference call argument (one per argument index)
 static const uint32_t kRetV = 2000000;         // pseudo virtual register holding the function result
 static const uint32_t kFlagGroup = 15;
 
@@ -559,6 +574,25 @@ static int contig_width(uint64_t mask) { int w = 0; while (mask & 1) { w++; mask
 
 struct Dumper {
   BaseCompiler& cc; FuncNode* func; bool a64; bool x32; int aw;      // aw: address / native register width in bytes
+  // frames with a re-aligned stack reach the function's stack arguments through the SA register ("mov sa, zsp" in the prolog):
+  // [sa + sa_offset_from_sa + k] is argument-area byte k. The argument assignment may exchange/copy that register first, so
+  // the dumper only prints WHICH register an inserted load goes through ("a<reg>:<k>") and the register the prolog set up
+  // ("M <address width> <reg>"); the driver follows the register set with the extracted, proven RaIRModel.sa_step and
+  // refuses an operand whose base register is not in the set.
+  int sa_reg = -1; int64_t sa_base = 0;
+  // by-reference call arguments: the register the last "lea p, [sp+k]" defined and k (forgotten at the next instruction that
+  // names the register, label or call), the number of such lea seen per call, the temporaries of each call
+  int tmp_reg = -1; int64_t tmp_off = 0; std::map<BaseNode*, int> tmp_seen; std::map<std::pair<BaseNode*, int>, int64_t> tmp_of;
+  bool is_arg_mem(const x86::Mem& m) const { return sa_reg >= 0 && m.has_base_reg() && !m.has_index() && m.base_id() < 32 && m.base_id() != x86::Gp::kIdSp && !(fp_frame() && m.base_id() == x86::Gp::kIdBp) && (m.base_type() == RegType::kGp64 || m.base_type() == RegType::kGp32) && !m.is_reg_home() && !m.has_segment(); }
+  // functions that keep a frame pointer address their stack arguments as [zbp + sa_offset_from_sa + k]; the allocator never
+  // allocates zbp there (and the dumper refuses any instruction that names it). With a re-aligned stack that is argument-area
+  // byte k ("a-:k"), otherwise the same byte is also [zsp + sa_offset_from_sp + k] and gets that (canonical) slot name.
+  bool fp_frame() const { return !a64 && func->frame().has_preserved_fp(); }
+  bool is_fp_arg_mem(const x86::Mem& m) const { return fp_frame() && m.has_base_reg() && !m.has_index() && m.base_id() == x86::Gp::kIdBp && (m.base_type() == RegType::kGp64 || m.base_type() == RegType::kGp32) && !m.is_reg_home() && !m.has_segment(); }
+  std::string fp_arg_name(const x86::Mem& m) const { const FuncFrame& fr = func->frame(); int64_t k = int64_t(m.offset()) - int64_t(fr.sa_offset_from_sa());
+    return fr.has_dynamic_alignment() ? argname(-1, k) : slotname(int64_t(fr.sa_offset_from_sp()) + k); }
+  static std::string argname(int reg, int64_t k) { char b[64]; if (reg < 0) snprintf(b, sizeof b, "a-:%lld", (long long)k); else snprintf(b, sizeof b, "a%d:%lld", reg, (long long)k); return b; }
+
   Dumper(BaseCompiler& c, FuncNode* f) : cc(c), func(f), a64(c.arch() == Arch::kAArch64), x32(c.arch() == Arch::kX86), aw(c.arch() == Arch::kX86 ? 4 : 8) {}
 
   bool is_virt(uint32_t id) const { return Operand::is_virt_id(id); }
@@ -631,14 +665,17 @@ struct Dumper {
         if (op.is_reg()) {
           const Reg& r = op.as<Reg>();
           if (r.reg_type() == RegType::kGp8Hi) { d.ok = false; d.why = "gp8-hi"; return d; }
+          if (target && fp_frame() && r.reg_group() == RegGroup::kGp && r.id() == x86::Gp::kIdBp) { d.ok = false; d.why = "frame pointer used as an operand"; return d; }
           if (target == is_virt(r.id())) { d.ok = false; d.why = target ? "virtual register left in output" : "physical register in input"; return d; }
           name = regname(r.reg_group(), r.id()); osize = r.size();
           if (!target) vsizes[i] = vsize_of(r.id()) | (r.size() << 16);
           if (oi.has_op_flag(OpRWFlags::kRegPhysId) && target && oi.phys_id() != r.id()) { d.ok = false; d.why = "fixed register operand not in its register"; return d; }
         } else {
           const x86::Mem& m = op.as<x86::Mem>();
-          if (!is_slot(m)) { d.ok = false; d.why = "register operand replaced by a non-frame memory operand"; return d; }
-          name = slotname(m.offset()); osize = m.size();
+          if (is_fp_arg_mem(m)) name = fp_arg_name(m);
+          else if (!is_slot(m)) { d.ok = false; d.why = "register operand replaced by a non-frame memory operand"; return d; }
+          else name = slotname(m.offset());
+          osize = m.size();
           // the memory form accesses rm_size bytes of the home slot
           if (oi.rm_size() && osize != oi.rm_size()) { d.ok = false; d.why = "substituted memory operand has not the architectural size"; return d; }
         }
@@ -795,8 +832,8 @@ static bool target_move(Dumper& D, InstNode* inst, std::string& out) {
   if (inst->has_extra_reg() || inst->op_count() != 2) return false;
   const Operand& o0 = inst->op(0); const Operand& o1 = inst->op(1);
   auto locof = [&](const Operand& o, std::string& name, uint32_t& size) -> bool {
-    if (o.is_reg()) { const Reg& r = o.as<Reg>(); if (D.is_virt(r.id()) || r.reg_type() == RegType::kGp8Hi) return false; if (r.reg_group() != RegGroup::kGp && r.reg_type() != RegType::kVec128 && r.reg_type() != RegType::kVec256 && r.reg_type() != RegType::kVec512 && r.reg_group() != RegGroup::kMask) return false; name = D.regname(r.reg_group(), r.id()); size = r.size(); return true; }
-    if (o.is_mem()) { const x86::Mem& m = o.as<x86::Mem>(); if (!Dumper::is_slot(m)) return false; name = Dumper::slotname(m.offset()); size = m.size(); return true; }
+    if (o.is_reg()) { const Reg& r = o.as<Reg>(); if (D.is_virt(r.id()) || r.reg_type() == RegType::kGp8Hi) return false; if (D.fp_frame() && r.reg_group() == RegGroup::kGp && r.id() == x86::Gp::kIdBp) return false; if (r.reg_group() != RegGroup::kGp && r.reg_type() != RegType::kVec128 && r.reg_type() != RegType::kVec256 && r.reg_type() != RegType::kVec512 && r.reg_group() != RegGroup::kMask) return false; name = D.regname(r.reg_group(), r.id()); size = r.size(); return true; }
+    if (o.is_mem()) { const x86::Mem& m = o.as<x86::Mem>(); if (D.is_fp_arg_mem(m)) { name = D.fp_arg_name(m); size = m.size(); return true; } if (D.is_arg_mem(m)) { name = Dumper::argname(int(m.base_id()), m.offset() - D.sa_base); size = m.size(); return true; } if (!Dumper::is_slot(m)) return false; name = Dumper::slotname(m.offset()); size = m.size(); return true; }
     return false; };
   std::string d, s; uint32_t ds = 0, ss = 0;
   if (!locof(o0, d, ds) || !locof(o1, s, ss)) return false;
@@ -838,7 +875,7 @@ static bool target_move(Dumper& D, InstNode* inst, std::string& out) {
   return false;
 }
 
-struct PreNode { BaseNode* node; NodeType type; int sidx; InstId inst_id; bool is_copy; std::vector<uint32_t> vsizes; std::string key; std::string idioms; std::vector<int> argw; int retw = 0; };
+struct PreNode { BaseNode* node; NodeType type; int sidx; InstId inst_id; bool is_copy; std::vector<uint32_t> vsizes; std::string key; std::string idioms; std::vector<int> argw; int retw = 0; std::vector<int> ind_arg, ind_sidx; /* by-reference arguments: index, S line of its ARGTMP */ };
 
 struct DumpResult { bool ok = true; std::string why; std::vector<std::string> S, T; };
 
@@ -865,14 +902,23 @@ static void dump_source(Dumper& D, std::vector<PreNode>& pre, std::map<BaseNode*
         const FuncDetail& fd = inv->detail();
         for (uint32_t ai = 0; ai < inv->arg_count(); ai++) {
           const Operand& op = inv->arg(ai, 0);
-          if (!op.is_reg() || !fd.arg(ai) || fd.arg(ai).is_indirect()) { out.ok = false; out.why = "call argument kind not modelled"; return; }
+          if (!op.is_reg() || !fd.arg(ai)) { out.ok = false; out.why = "call argument kind not modelled"; return; }
           const Reg& r = op.as<Reg>(); if (r.reg_group() != RegGroup::kGp && r.reg_group() != RegGroup::kVec) { out.ok = false; out.why = "call argument register group not modelled"; return; }
-          int w = int(std::min<uint32_t>(r.size(), D.vsize_of(r.id()))); pn.argw.push_back(w); d.uses.push_back({D.regname(r.reg_group(), r.id()), w});
+          int w = int(std::min<uint32_t>(r.size(), D.vsize_of(r.id()))); pn.argw.push_back(w);
+          if (fd.arg(ai).is_indirect()) {
+            // passed by reference: the allocator copies the vector to a temporary of the call frame ("lea p, [sp+k]; movaps [p], x")
+            // and passes p. Source side: "p := address of temporary ai" is an instruction of its own, the call reads p and x.
+            if (D.a64 || D.x32 || r.reg_group() != RegGroup::kVec || w != 16 || !fd.arg(ai).is_reg()) { out.ok = false; out.why = "by-reference call argument of this kind not modelled"; return; }
+            pn.ind_arg.push_back(int(ai)); pn.ind_sidx.push_back(int(out.S.size()));
+            snprintf(b, sizeof b, "op ARGTMP|%u 0 1 v%u %d", ai, kPtrV + ai, D.aw); out.S.push_back(b);
+            snprintf(b, sizeof b, "v%u", kPtrV + ai); d.uses.push_back({b, D.aw}); }
+          d.uses.push_back({D.regname(r.reg_group(), r.id()), w});
         }
         std::vector<Arg> defs;
         if (fd.has_ret() && inv->ret(0).is_reg()) { const Reg& r = inv->ret(0).as<Reg>(); if (r.reg_group() != RegGroup::kGp && r.reg_group() != RegGroup::kVec) { out.ok = false; out.why = "call result register group not modelled"; return; }
           pn.retw = int(std::min<uint32_t>(r.size(), D.vsize_of(r.id()))); defs.push_back({D.regname(r.reg_group(), r.id()), pn.retw}); }
         for (auto& a : defs) d.defs.push_back(a);
+        pn.sidx = int(out.S.size());
         out.S.push_back("op call/" + d.key + D.items(d)); break; }
       case NodeType::kInst: case NodeType::kJump: {
         InstNode* inst = n->as<InstNode>(); pn.inst_id = inst->inst_id();
@@ -929,7 +975,7 @@ static void dump_target(Dumper& D, std::vector<PreNode>& pre, std::map<BaseNode*
   x86::Builder ebx; a64::Builder eba; BaseBuilder& eb = D.a64 ? static_cast<BaseBuilder&>(eba) : static_cast<BaseBuilder&>(ebx);
   scratch2.attach(&eb); eb.emit_epilog(func->frame());
   std::vector<InstNode*> epilog; for (BaseNode* n = eb.first_node(); n; n = n->next()) if (n->is_inst()) epilog.push_back(n->as<InstNode>());
-  if (func->frame().has_preserved_fp()) { out.ok = false; out.why = "frame pointer not modelled"; return; }
+  if (D.a64 && func->frame().has_preserved_fp()) { out.ok = false; out.why = "frame pointer not modelled"; return; }
 
   size_t prolog_left = 0, epilog_pos = 0; bool in_epilog = false;
   auto T = [&](int hint, const std::string& s) { if (hint >= 0) snprintf(b, sizeof b, "%d ", hint); else snprintf(b, sizeof b, "- "); out.T.push_back(std::string(b) + s); };
@@ -944,13 +990,19 @@ static void dump_target(Dumper& D, std::vector<PreNode>& pre, std::map<BaseNode*
           const FuncValue& fv = func->detail().arg(i);
           if (fv.is_indirect()) { out.ok = false; out.why = "indirect argument not modelled"; return; }
           if (fv.is_reg()) defs.push_back({D.regname(RegUtils::group_of(fv.reg_type()), fv.reg_id()), int(D.vsize_of(ro.id()))});
-          else if (fv.is_stack() && func->frame().has_dynamic_alignment()) { out.ok = false; out.why = "stack argument in a frame with re-aligned stack not modelled"; return; }
+          else if (fv.is_stack() && func->frame().has_dynamic_alignment()) {
+            const FuncFrame& fr = func->frame();
+            if (fr.has_preserved_fp()) { defs.push_back({Dumper::argname(-1, fv.stack_offset()), int(D.vsize_of(ro.id()))}); continue; }
+            if (fr.sa_reg_id() == Reg::kIdBad || fr.sa_reg_id() == x86::Gp::kIdSp) { out.ok = false; out.why = "stack argument in a re-aligned frame without SA register"; return; }
+            D.sa_reg = int(fr.sa_reg_id()); D.sa_base = int64_t(fr.sa_offset_from_sa());
+            defs.push_back({Dumper::argname(-1, fv.stack_offset()), int(D.vsize_of(ro.id()))}); }
           else if (fv.is_stack()) defs.push_back({Dumper::slotname(int64_t(func->frame().sa_offset_from_sp()) + fv.stack_offset()), int(D.vsize_of(ro.id()))});   // the caller's argument area, seen from the body's sp
           else { out.ok = false; out.why = "argument location"; return; }
         }
         snprintf(b, sizeof b, " %zu", defs.size()); s += b; for (auto& a : defs) { snprintf(b, sizeof b, " %s %d", a.name.c_str(), a.w); s += b; }
         T(0, s); prolog_left = prolog.size(); break; }
       case NodeType::kLabel: {
+        D.tmp_reg = -1;
         snprintf(b, sizeof b, "label %u", n->as<LabelNode>()->label_id()); T(pn ? pn->sidx : -1, b);
         if (n == func->exit_node()) in_epilog = true;
         break; }
@@ -958,7 +1010,7 @@ static void dump_target(Dumper& D, std::vector<PreNode>& pre, std::map<BaseNode*
         if (epilog_pos != epilog.size() || in_epilog) { out.ok = false; out.why = "epilog shorter than expected"; return; }
         break; }
       case NodeType::kInvoke: {
-        InvokeNode* inv = n->as<InvokeNode>();
+        InvokeNode* inv = n->as<InvokeNode>(); D.tmp_reg = -1;
         if (!pn) { out.ok = false; out.why = "inserted call"; return; }
         Desc d = D.describe(inv, true, pn->vsizes, pn->idioms);
         if (!d.ok) { std::string t = d.why; std::replace(t.begin(), t.end(), ' ', '_'); T(pn->sidx, "bad call:" + t); break; }
@@ -967,7 +1019,12 @@ static void dump_target(Dumper& D, std::vector<PreNode>& pre, std::map<BaseNode*
         std::vector<Arg> clob;
         for (uint32_t ai = 0; ai < inv->arg_count(); ai++) {
           const FuncValue& fv = fd.arg(ai);
-          if (fv.is_reg()) d.uses.push_back({D.regname(RegUtils::group_of(fv.reg_type()), fv.reg_id()), pn->argw[ai]});
+          if (fv.is_indirect()) {
+            auto it = D.tmp_of.find({n, int(ai)});
+            if (!fv.is_reg() || it == D.tmp_of.end()) { out.ok = false; out.why = "by-reference call argument without its temporary"; return; }
+            d.uses.push_back({D.regname(RegGroup::kGp, fv.reg_id()), D.aw}); d.uses.push_back({Dumper::slotname(it->second), pn->argw[ai]});
+            clob.push_back({Dumper::slotname(it->second), pn->argw[ai]}); }     // the callee owns the copy
+          else if (fv.is_reg()) d.uses.push_back({D.regname(RegUtils::group_of(fv.reg_type()), fv.reg_id()), pn->argw[ai]});
           else if (fv.is_stack()) { d.uses.push_back({Dumper::slotname(fv.stack_offset()), pn->argw[ai]}); clob.push_back({Dumper::slotname(fv.stack_offset()), D.aw}); }
           else { out.ok = false; out.why = "call argument location"; return; }
         }
@@ -1019,7 +1076,23 @@ static void dump_target(Dumper& D, std::vector<PreNode>& pre, std::map<BaseNode*
         if (!pn || pn->is_copy) {
           std::string s;
           if (pn && pn->inst_id != inst->inst_id()) { T(pn->sidx, "bad copy instruction changed its id"); break; }
-          if (target_move(D, inst, s)) T(pn ? pn->sidx : -1, s);
+          if (!pn && !D.a64 && !D.x32 && inst->inst_id() == x86::Inst::kIdLea && inst->op_count() == 2 && inst->op(0).is_reg() && inst->op(0).as<Reg>().reg_group() == RegGroup::kGp &&
+              !D.is_virt(inst->op(0).as<Reg>().id()) && int(inst->op(0).as<Reg>().size()) == D.aw && inst->op(1).is_mem() && Dumper::is_slot(inst->op(1).as<x86::Mem>())) {
+            // "lea p, [sp+k]" in front of a call with by-reference arguments: p := address of the temporary of the next such argument
+            BaseNode* c = n->next(); while (c && c->type() != NodeType::kInvoke && c->type() != NodeType::kLabel && c != D.func->end_node()) c = c->next();
+            auto ci = c && c->type() == NodeType::kInvoke ? idx.find(c) : idx.end();
+            if (ci != idx.end()) { PreNode& cp = pre[ci->second]; int k = D.tmp_seen[c]++;
+              if (k < int(cp.ind_arg.size())) {
+                D.tmp_reg = int(inst->op(0).as<Reg>().id()); D.tmp_off = inst->op(1).as<x86::Mem>().offset(); D.tmp_of[{c, cp.ind_arg[size_t(k)]}] = D.tmp_off;
+                snprintf(b, sizeof b, "op ARGTMP|%d 0 1 %s %d", cp.ind_arg[size_t(k)], D.regname(RegGroup::kGp, uint32_t(D.tmp_reg)).c_str(), D.aw); T(cp.ind_sidx[size_t(k)], b); break; } } }
+          if (!pn && D.tmp_reg >= 0 && (inst->inst_id() == x86::Inst::kIdMovaps || inst->inst_id() == x86::Inst::kIdVmovaps) && inst->op_count() == 2 && inst->op(0).is_mem() && inst->op(1).is_reg()) {
+            // "movaps [p], x" directly behind that lea (nothing in between named p): the 16 bytes of x are stored in the temporary
+            const x86::Mem& m = inst->op(0).as<x86::Mem>(); const Reg& x = inst->op(1).as<Reg>();
+            if (m.has_base_reg() && !m.has_index() && int(m.base_id()) == D.tmp_reg && m.base_id() != x86::Gp::kIdSp && m.offset() == 0 && !m.has_segment() && !m.is_reg_home() && x.reg_type() == RegType::kVec128 && !D.is_virt(x.id())) {
+              snprintf(b, sizeof b, "mov %s %s 16 0 16", Dumper::slotname(D.tmp_off).c_str(), D.regname(RegGroup::kVec, x.id()).c_str()); T(-1, b); D.tmp_reg = -1; break; } }
+          if (D.tmp_reg >= 0) for (uint32_t oi = 0; oi < inst->op_count(); oi++) if (inst->op(oi).is_reg() && inst->op(oi).as<Reg>().reg_group() == RegGroup::kGp && int(inst->op(oi).as<Reg>().id()) == D.tmp_reg) D.tmp_reg = -1;
+          bool tm = target_move(D, inst, s);
+          if (tm) T(pn ? pn->sidx : -1, s);
           else { String sb; Formatter::format_node(sb, FormatOptions(), &D.cc, n); std::string t = sb.data(); std::replace(t.begin(), t.end(), ' ', '_'); T(pn ? pn->sidx : -1, "bad unmodelled-insertion:" + t); }
           break;
         }
@@ -1032,6 +1105,7 @@ static void dump_target(Dumper& D, std::vector<PreNode>& pre, std::map<BaseNode*
                   inst->op(0).as<Reg>().size() == inst->op(1).as<x86::Mem>().size();
           if (!xform) { T(pn->sidx, "bad instruction id changed"); break; }
         }
+        if (D.tmp_reg >= 0) for (uint32_t oi = 0; oi < inst->op_count(); oi++) if (inst->op(oi).is_reg() && inst->op(oi).as<Reg>().reg_group() == RegGroup::kGp && int(inst->op(oi).as<Reg>().id()) == D.tmp_reg) D.tmp_reg = -1;
         Desc d = D.describe(inst, true, pn->vsizes, pn->idioms);
         if (xform) d.key = pn->key;
         if (!d.ok) { std::string t = d.why; std::replace(t.begin(), t.end(), ' ', '_'); T(pn->sidx, "bad " + t); break; }
@@ -1183,7 +1257,7 @@ static int run_one(uint64_t seed, uint64_t index, int inputs, bool verbose, cons
     }
     p.ins.swap(keep);
   }
-  printf("P %llu nv=%zu ni=%zu nl=%d jt=%d\n", (unsigned long long)index, p.vsize.size(), p.ins.size(), p.nlabels, p.jt_mode);
+  printf("P %llu nv=%zu ni=%zu nl=%d jt=%d fp=%d\n", (unsigned long long)index, p.vsize.size(), p.ins.size(), p.nlabels, p.jt_mode, int(p.fp));
   JitRuntime rt; CodeHolder code; code.init(rt.environment(), rt.cpu_features());
   ErrH eh; code.set_error_handler(&eh);
   x86::Compiler cc(&code);
@@ -1197,7 +1271,7 @@ static int run_one(uint64_t seed, uint64_t index, int inputs, bool verbose, cons
   if (e != Error::kOk) { printf("G ra-error %u %s\nE\n", unsigned(e), eh.msg.c_str()); return 0; }
   if (dr.ok) dump_target(D, pre, idx, dr);
   if (!dr.ok) printf("U %s\n", dr.why.c_str());
-  else { for (auto& s : dr.S) printf("S %s\n", s.c_str()); for (auto& s : dr.T) printf("T %s\n", s.c_str()); }
+  else { for (auto& s : dr.S) printf("S %s\n", s.c_str()); if (D.sa_reg >= 0) printf("M %d %d\n", D.aw, D.sa_reg); for (auto& s : dr.T) printf("T %s\n", s.c_str()); }
   if (verbose) { String sb; FormatOptions fo; for (BaseNode* n = cc.first_node(); n; n = n->next()) { sb.clear(); Formatter::format_node(sb, fo, &cc, n); printf("# %s\n", sb.data()); } }
   // serialize + execute
   x86::Assembler as(&code);
@@ -1356,7 +1430,7 @@ static void run_one_a64(uint64_t seed, uint64_t index, bool verbose) {
   if (e != Error::kOk) { printf("G ra-error %u %s\nE\n", unsigned(e), eh.msg.c_str()); return; }
   if (dr.ok) dump_target(D, pre, idx, dr);
   if (!dr.ok) printf("U %s\n", dr.why.c_str());
-  else { for (auto& s : dr.S) printf("S %s\n", s.c_str()); for (auto& s : dr.T) printf("T %s\n", s.c_str()); }
+  else { for (auto& s : dr.S) printf("S %s\n", s.c_str()); if (D.sa_reg >= 0) printf("M %d %d\n", D.aw, D.sa_reg); for (auto& s : dr.T) printf("T %s\n", s.c_str()); }
   if (verbose) { String sb; FormatOptions fo; for (BaseNode* n = cc.first_node(); n; n = n->next()) { sb.clear(); Formatter::format_node(sb, fo, &cc, n); printf("# %s\n", sb.data()); } }
   a64::Assembler as(&code);
   e = cc.serialize_to(&as);
@@ -1443,14 +1517,16 @@ static void run_one_x32(uint64_t seed, uint64_t index, bool verbose) {
   int cls = int(index % 5), ngp;
   switch (cls) { case 0: ngp = 1 + int(r.below(5)); break; case 1: ngp = 5 + int(r.below(4)); break; case 2: ngp = 7 + int(r.below(3)); break; case 3: ngp = 10 + int(r.below(20)); break; default: ngp = 30 + int(r.below(120)); break; }
   int nvec = r.chance(50) ? 0 : (r.chance(50) ? 1 + int(r.below(7)) : 7 + int(r.below(10)));
-  int nargs = int(r.below(6)); bool fastcall = r.chance(40);
-  if (nvec > 0) { fastcall = true; nargs = int(r.below(2)); }       // 16-byte slots re-align the stack: stack arguments would go through the SA register (not modelled)
-  printf("P %llu x86-32 ngp=%d nvec=%d nargs=%d %s\n", (unsigned long long)index, ngp, nvec, nargs, fastcall ? "fastcall" : "cdecl");
+  int nargs = int(r.below(r.chance(30) ? 12 : 6)); bool fastcall = r.chance(40);
+  /* with XMM values the 16-byte slots re-align the stack: stack arguments come through the SA register */
+  bool fp = r.chance(20);    /* the function keeps ebp as frame pointer: stack arguments are addressed through it */
+  printf("P %llu x86-32 ngp=%d nvec=%d nargs=%d %s fp=%d\n", (unsigned long long)index, ngp, nvec, nargs, fastcall ? "fastcall" : "cdecl", int(fp));
   Environment env(Arch::kX86); CodeHolder code; code.init(env);
   ErrH eh; code.set_error_handler(&eh);
   x86::Compiler cc(&code);
   X32Gen gen(r, cc); gen.calls = r.chance(50);
   FuncNode* func = gen.build(ngp, nvec, 5 + int(r.below(cls >= 3 ? 120 : 60)), r.below(4) == 0 ? 0 : int(r.below(35)), nargs, fastcall);
+  if (fp && func) func->frame().set_preserved_fp();
   if (gen.err != Error::kOk || eh.err != Error::kOk) { printf("G emit-error %u %s\nE\n", unsigned(eh.err != Error::kOk ? eh.err : gen.err), eh.msg.c_str()); return; }
   Dumper D(cc, func);
   std::vector<PreNode> pre; std::map<BaseNode*, size_t> idx; DumpResult dr;
@@ -1459,12 +1535,81 @@ static void run_one_x32(uint64_t seed, uint64_t index, bool verbose) {
   if (e != Error::kOk) { printf("G ra-error %u %s\nE\n", unsigned(e), eh.msg.c_str()); return; }
   if (dr.ok) dump_target(D, pre, idx, dr);
   if (!dr.ok) printf("U %s\n", dr.why.c_str());
-  else { for (auto& s : dr.S) printf("S %s\n", s.c_str()); for (auto& s : dr.T) printf("T %s\n", s.c_str()); }
+  else { for (auto& s : dr.S) printf("S %s\n", s.c_str()); if (D.sa_reg >= 0) printf("M %d %d\n", D.aw, D.sa_reg); for (auto& s : dr.T) printf("T %s\n", s.c_str()); }
   if (verbose) { String sb; FormatOptions fo; for (BaseNode* n = cc.first_node(); n; n = n->next()) { sb.clear(); Formatter::format_node(sb, fo, &cc, n); printf("# %s\n", sb.data()); } }
   x86::Assembler as(&code);
   e = cc.serialize_to(&as);
   if (e != Error::kOk) printf("X serialize-error %u %s\n", unsigned(e), eh.msg.c_str()); else printf("X not-executed\n");
   printf("E\n");
+}
+
+
+// ---- "alu <seed> <mnemonic>...": executes every tagged mnemonic on the host CPU (register/register, same register, immediate
+// forms; operand sizes 1/2/4/8 bytes, xmm/ymm/zmm, k) on boundary and random values and prints
+// "A <inst id> <w> <form> <a> <b> <result> <mnemonic>" (hex, low w bytes): the driver compares with the extracted alu_sem.
+typedef void (*AluFn)(const uint8_t*, const uint8_t*, uint8_t*);
+static std::string hexle(const uint8_t* p, int w) { std::string s = "0x"; char b[4]; for (int i = w - 1; i >= 0; i--) { snprintf(b, sizeof b, "%02x", p[i]); s += b; } return s; }
+static int alu_mode(uint64_t seed, int n, char** names) {
+  Rng r(seed * 7919ull + 17);
+  JitRuntime rt;
+  bool avx512 = rt.cpu_features().x86().has_avx512_f() && rt.cpu_features().x86().has_avx512_bw() && rt.cpu_features().x86().has_avx512_vl();
+  bool avx2 = rt.cpu_features().x86().has_avx2();
+  for (int mi = 0; mi < n; mi++) {
+    const char* m = names[mi]; InstId id = InstAPI::string_to_inst_id(Arch::kX64, m, strlen(m));
+    if (id == 0) { printf("AX %s no-id\n", m); continue; }
+    std::string nm = m;
+    bool shift = nm == "shl" || nm == "shr" || nm == "sar" || nm == "rol" || nm == "ror";
+    bool kop = nm[0] == 'k', vex = nm[0] == 'v', evex = vex && nm[nm.size() - 1] == 'd' && (nm == "vpxord" || nm == "vpandd" || nm == "vpord");
+    bool sse = nm[0] == 'p';
+    std::vector<int> widths; if (kop) widths = {8}; else if (sse) widths = {16}; else if (vex) { widths = {16, 32}; if (evex) widths.push_back(64); } else widths = {1, 2, 4, 8};
+    if ((kop || evex) && !avx512) { printf("AX %s host-has-no-avx512\n", m); continue; }
+    if (vex && !avx2) { printf("AX %s host-has-no-avx2\n", m); continue; }
+    for (int w : widths) {
+      // forms: 0 = two registers, 1 = the same register twice, 2.. = immediates (GP only)
+      std::vector<int64_t> imms; if (!kop && !vex && !sse) { imms = {0, 1, -1, 0x7f}; if (w < 8 && !shift) imms.push_back(w == 1 ? 0xff : w == 2 ? 0xffff : 0xffffffffll); if (w >= 2 && !shift) imms.push_back(0x1234); if (shift) imms = {0, 1, 7}; }
+      for (int form = 0; form < 2 + int(imms.size()); form++) {
+        CodeHolder code; code.init(rt.environment(), rt.cpu_features()); ErrH eh; code.set_error_handler(&eh);
+        x86::Assembler a(&code); using namespace x86;
+        int64_t imm = form >= 2 ? imms[size_t(form - 2)] : 0;
+        if (kop) { a.kmovq(k1, qword_ptr(rdi)); a.kmovq(k2, qword_ptr(rsi)); if (form == 0) a.emit(id, k3, k1, k2); else a.emit(id, k3, k1, k1); a.kmovq(qword_ptr(rdx), k3); }
+        else if (sse) { a.movdqu(xmm0, xmmword_ptr(rdi)); a.movdqu(xmm1, xmmword_ptr(rsi)); if (form == 0) a.emit(id, xmm0, xmm1); else a.emit(id, xmm0, xmm0); a.movdqu(xmmword_ptr(rdx), xmm0); }
+        else if (vex) {
+          Vec v0 = w == 16 ? Vec(xmm0) : w == 32 ? Vec(ymm0) : Vec(zmm0), v1 = w == 16 ? Vec(xmm1) : w == 32 ? Vec(ymm1) : Vec(zmm1), v2 = w == 16 ? Vec(xmm2) : w == 32 ? Vec(ymm2) : Vec(zmm2);
+          Mem ma = ptr(rdi), mb = ptr(rsi), mo = ptr(rdx); ma.set_size(uint32_t(w)); mb.set_size(uint32_t(w)); mo.set_size(uint32_t(w));
+          if (w == 64) { a.vmovdqu64(v0, ma); a.vmovdqu64(v1, mb); } else { a.vmovdqu(v0, ma); a.vmovdqu(v1, mb); }
+          if (form == 0) a.emit(id, v2, v0, v1); else a.emit(id, v2, v0, v0);
+          if (w == 64) a.vmovdqu64(mo, v2); else a.vmovdqu(mo, v2);
+          a.vzeroupper(); }
+        else {
+          Gp ra = w == 1 ? Gp(al) : w == 2 ? Gp(ax) : w == 4 ? Gp(eax) : Gp(rax), rc = w == 1 ? Gp(cl) : w == 2 ? Gp(cx) : w == 4 ? Gp(ecx) : Gp(rcx);
+          a.mov(rax, qword_ptr(rdi)); a.mov(rcx, qword_ptr(rsi));
+          if (form >= 2) a.emit(id, ra, Imm(imm)); else if (shift) { if (form == 1) { a.mov(rcx, rax); } a.emit(id, ra, cl); } else if (form == 0) a.emit(id, ra, rc); else a.emit(id, ra, ra);
+          a.mov(qword_ptr(rdx), rax); }
+        a.ret();
+        AluFn fn = nullptr; Error e = eh.err; if (e == Error::kOk) e = rt.add(&fn, &code);
+        if (e != Error::kOk || !fn) { printf("AX %s w=%d form=%d assemble-error %u %s\n", m, w, form, unsigned(e), eh.msg.c_str()); continue; }
+        int lanes = w >= 16 ? w / 4 : 1, lw = w >= 16 ? 4 : w;
+        auto boundary = [&](int k) -> uint64_t { uint64_t ones = lw == 8 ? ~0ull : ((1ull << (8 * lw)) - 1), sign = 1ull << (8 * lw - 1);
+          switch (k % 8) { case 0: return 0; case 1: return 1; case 2: return ones; case 3: return sign; case 4: return sign - 1; case 5: return ones - 1; default: return r.next() & ones; } };
+        int trials = w >= 16 ? 48 : 64;
+        for (int t = 0; t < trials; t++) {
+          alignas(64) uint8_t A[64], B[64], O[64]; memset(A, 0, 64); memset(B, 0, 64); memset(O, 0, 64);
+          for (int l = 0; l < lanes; l++) {
+            uint64_t x = w >= 16 ? boundary(int(r.below(8))) : boundary(t / 8), y = w >= 16 ? (r.below(3) == 0 ? x : boundary(int(r.below(8)))) : boundary(t % 8);
+            memcpy(A + l * lw, &x, size_t(lw)); memcpy(B + l * lw, &y, size_t(lw)); }
+          if (w < 8) { uint64_t g = r.next(); memcpy(A + w, &g, size_t(8 - w)); g = r.next(); memcpy(B + w, &g, size_t(8 - w)); }   // the bytes above the operand size must not matter
+          if (shift && form == 0) { B[0] = uint8_t(t % 4 == 0 ? 0 : (t % 4 == 1 ? (w * 8) : B[0])); }
+          fn(A, B, O);
+          const uint8_t* bb = form == 1 ? A : B; uint8_t I[64]; if (form >= 2) { memset(I, imm < 0 ? 0xff : 0, 64); int64_t v = imm; memcpy(I, &v, 8); }
+          // second operand as the model sees it: register value truncated to the operand (count register: cl), immediate as a signed number
+          std::string bs; if (form >= 2) { char tmp[32]; snprintf(tmp, sizeof tmp, "%lld", (long long)imm); bs = tmp; } else bs = hexle(bb, shift ? 1 : w);
+          printf("A %u %d %s %s %s %s %s\n", unsigned(id), w, form == 0 ? "rr" : form == 1 ? "same" : "imm", hexle(A, w).c_str(), bs.c_str(), hexle(O, w).c_str(), m);
+        }
+        rt.release(fn);
+      }
+    }
+  }
+  return 0;
 }
 
 int main(int argc, char** argv) {
@@ -1475,6 +1620,7 @@ int main(int argc, char** argv) {
     for (int i = 2; i < argc; i++) { InstId id = InstAPI::string_to_inst_id(Arch::kX64, argv[i], strlen(argv[i])); String nm; InstAPI::inst_id_to_string(Arch::kX64, id, InstStringifyOptions::kNone, nm);
       printf("%s %u %s\n", argv[i], unsigned(id), nm.data()); }
     return 0; }
+  if (argc >= 4 && !strcmp(argv[1], "alu")) return alu_mode(strtoull(argv[2], nullptr, 10), argc - 3, argv + 3);
   if (argc >= 6 && !strcmp(argv[1], "skel")) { g_skel = true; g_features = 1023; uint64_t sd = strtoull(argv[2], nullptr, 10), fi = strtoull(argv[3], nullptr, 10), cn = strtoull(argv[4], nullptr, 10);
     for (uint64_t i = fi; i < fi + cn; i++) { run_one(sd, i, atoi(argv[5]), argc > 6 && atoi(argv[6]) != 0); fflush(stdout); } return 0; }
   if (argc >= 5 && !strcmp(argv[1], "x32")) { uint64_t sd = strtoull(argv[2], nullptr, 10), fi = strtoull(argv[3], nullptr, 10), cn = strtoull(argv[4], nullptr, 10);
